@@ -111,7 +111,9 @@ fn extract_ipv4_info(packet: &[u8]) -> Option<(IpAddr, IpAddr, u16, u16)> {
     let dst_ip = IpAddr::V4(Ipv4Addr::new(packet[16], packet[17], packet[18], packet[19]));
 
     // Get IP header length (first 4 bits of byte 0, in 32-bit words)
-    let ihl = (packet[0] & 0x0F) as usize;
+    // An IHL below 5 is invalid; the packet decoder then places the TCP header after the 20 fixed
+    // bytes, so the filter must look for the ports at the same offset.
+    let ihl = ((packet[0] & 0x0F) as usize).max(5);
     let ip_header_len = ihl.saturating_mul(4);
 
     // TCP header starts after IP header
